@@ -602,25 +602,34 @@ func (m *Machine) contractHavoc(st *State, fr *Frame, fc *FuncContract, name str
 	if !fc.HasAssigns {
 		panic(unsupported("contract of " + name + " has no assigns clause (write `assigns nothing` or `pure`)"))
 	}
+	// evaluate every location in the pre-state first, then apply the havoc
+	type locA struct {
+		p *Ptr
+		a string
+	}
+	var all []locA
 	for _, a := range fc.Assigns {
-		locs := m.evalLoc(st, fc, name, a, bind)
-		for _, p := range locs {
-			m.frameCheck(st, fr, nil, p, "callee "+name+" assigns "+a)
-			if p.Ref == nil {
-				// every object of the type: the whole field memory is unknown afterwards
-				for _, l := range m.ptrLeaves(p) {
-					m.havocName(st, leafName(p.Mem, l.path), false, nil)
-				}
-				continue
-			}
-			if p.Path == "*" {
-				for _, l := range m.ts.Leaves(p.Elem) {
-					m.setElemArr(st, p.Elem, p.Ref, l, m.ctx.Fresh("hv.elems", ArrSort(m.ts.Idx(), l.sort)))
-				}
-				continue
-			}
-			m.havocLoc(st, p, "hv."+mangle(name))
+		for _, p := range m.evalLoc(st, fc, name, a, bind) {
+			all = append(all, locA{p, a})
 		}
+	}
+	for _, la := range all {
+		p, a := la.p, la.a
+		m.frameCheck(st, fr, nil, p, "callee "+name+" assigns "+a)
+		if p.Ref == nil {
+			// every object of the type: the whole field memory is unknown afterwards
+			for _, l := range m.ptrLeaves(p) {
+				m.havocName(st, leafName(p.Mem, l.path), false, nil)
+			}
+			continue
+		}
+		if p.Path == "*" {
+			for _, l := range m.ts.Leaves(p.Elem) {
+				m.setElemArr(st, p.Elem, p.Ref, l, m.ctx.Fresh("hv.elems", ArrSort(m.ts.Idx(), l.sort)))
+			}
+			continue
+		}
+		m.havocLoc(st, p, "hv."+mangle(name))
 	}
 	m.timePasses(st)
 }
@@ -1196,6 +1205,16 @@ func (m *Machine) learnDistinct(t *Term) {
 	case "and":
 		for _, a := range t.args {
 			m.learnDistinct(a)
+		}
+	case "=":
+		// closureIs(f, name) in a requires clause: select(clo.fn, f) == code
+		for k := 0; k < 2; k++ {
+			sel, code := t.args[k], t.args[1-k]
+			if sel.op == "select" && sel.args[0].op == "var" && strings.HasSuffix(sel.args[0].name, "clo.fn") && code.IsNum() {
+				if fn, ok := m.fnOf[code.num.Int64()]; ok {
+					m.knownCode[sel.args[1].id] = fn
+				}
+			}
 		}
 	case "not":
 		e := t.args[0]
